@@ -1004,6 +1004,51 @@ pub fn generate(seed: u64, knobs: &Knobs) -> C10Scenario {
                     path: world.sources[i].path.clone(),
                 });
             }
+            98 => {
+                // a configuration change meets an error under fail-fast (the pass may stop
+                // early) and is taken back before the next pass
+                if knobs.layer != Layer::L1
+                    || in_place
+                    || graph_mode
+                    || world.sources.len() < 2
+                    || world.sourcemap.is_some()
+                    || (world.config_path.is_none() && !matches!(opts.config, ConfigSource::Object(_)))
+                {
+                    continue;
+                }
+                let old_text = world.config_text();
+                let mut parts = world.config.clone();
+                parts.rules = gen::gen_rules(&mut rh);
+                let saved = std::mem::replace(&mut world.config, parts);
+                let new_text = world.config_text();
+                world.config = saved;
+                if new_text == old_text {
+                    continue;
+                }
+                if !world.sources.iter().any(|s| s.broken) {
+                    let i = rh.below(world.sources.len());
+                    let mut s = world.sources[i].clone();
+                    s.version += 1;
+                    s.broken = true;
+                    let body = world.render(&s);
+                    world.sources[i] = s.clone();
+                    new_ops.push(Op::Edit {
+                        path: s.path,
+                        body: Body::Text(body),
+                    });
+                }
+                let set_config = |text: String| match &world.config_path {
+                    Some(path) => Op::Edit {
+                        path: path.clone(),
+                        body: Body::Text(text),
+                    },
+                    None => Op::ConfigObject { text },
+                };
+                new_ops.push(set_config(new_text));
+                new_ops.push(Op::FailFastNext);
+                new_ops.push(Op::Pass);
+                new_ops.push(set_config(old_text));
+            }
             97 => {
                 // a module outside the input that nothing required at start-up: created,
                 // required by an edit of a source, processed, then edited (the watcher has
